@@ -257,3 +257,57 @@ Proof.
   - intros a st' outs H Hnone e' He'.
     exact (replay_revalidates _ _ _ _ _ _ _ _ _ _ _ _ H Hnone e' He').
 Qed.
+
+(* The SECOND entry point for channel updates, Builder.ApplyChannelUpdate
+   (updates carried in onion failure messages of payment attempts): nodes and
+   zombie index are untouched, no channel appears or disappears or changes its
+   static fields, and a directional policy that differs afterwards is the
+   content of that very update — for that channel and direction, with
+   consistent fields w.r.t. the capacity, signed by the node key the direction
+   bit selects in the stored channel, and STRICTLY newer than the stored one.
+   (This path checks neither chain hash nor zero timestamps; the property text
+   does not ask for them.) *)
+Theorem C20_apply_update_authentic :
+  forall verify now st u st' b,
+    apply_chan_upd verify now st u = (st', b) ->
+    s_nodes st' = s_nodes st /\ s_zombies st' = s_zombies st /\
+    (forall k, match alookup k (s_edges st), alookup k (s_edges st') with
+               | None, None => True
+               | Some e, Some e' => same_static e e'
+               | _, _ => False
+               end) /\
+    forall scid e' d, (d = 0 \/ d = 1) -> alookup scid (s_edges st') = Some e' ->
+      pol_dir e' d <> old_pol st scid d ->
+      scid = cu_scid u /\ d = dir_of (cu_cf u) /\
+      upd_fields_ok (e_cap e') u = true /\
+      verify (key_dir e' d) (cu_dg u) (cu_sig u) = true /\
+      pol_dir e' d = Some (pol_of u) /\
+      match old_pol st scid d with Some o => p_ts o < cu_ts u | None => True end.
+Proof. intros. eapply apply_authentic; eassumption. Qed.
+
+(* Concurrent updates of one channel direction through either entry point.
+   Each update k performs a CHECK against the stored timestamp and, if it
+   passed, a WRITE.  UNDER THE PER-CHANNEL MUTEX (check and write of an update
+   adjacent: [atomic_schedule]) and for ANY order in which any number of updates
+   get the mutex: the store ends with the maximum of its initial timestamp and
+   all update timestamps ("the newest accepted update wins"), no update is left
+   half-done, and every write was strictly newer than what the store held when
+   it was performed. *)
+Theorem C20_atomic_updates_keep_max :
+  forall (ts : nat -> N) (ks : list nat) (s0 : N),
+    let r := cw_run ts (mkCw s0 [] []) (atomic_schedule ks) in
+    cw_store r = fold_left N.max (map ts ks) s0 /\ cw_passed r = [] /\
+    Forall (fun p => fst p < snd p) (cw_log r).
+Proof. intros ts ks s0. apply cw_atomic_run. constructor. Qed.
+
+(* ... and WITHOUT that atomicity the clause "applied only if strictly newer
+   than the stored one" fails: both checks pass against the old timestamp 1,
+   the newer update (9) is written first, the older one (5) on top of it: the
+   store ends with 5 < 9 and the log shows the write 9 -> 5.  The harness'
+   deterministic interleaving scenarios (an update held at the store boundary
+   between its check and its write) look for exactly this on the real code. *)
+Theorem C20_nonatomic_updates_refuted :
+  let r := cw_run w_ts (mkCw 1 [] []) w_sched in
+  cw_store r = 5 /\ cw_log r = [(1, 9); (9, 5)] /\
+  fold_left N.max (map w_ts [0%nat; 1%nat]) 1 = 9.
+Proof. exact cw_nonatomic_witness. Qed.
